@@ -9,6 +9,7 @@
 import Flamego.Base.Engine
 import Flamego.Model.Syntax
 import Flamego.Gen.RouteFacts
+import Flamego.Gen.ConstFacts
 namespace Flamego
 
 /-- what a segment matches -/
@@ -57,7 +58,16 @@ def atoiGo (s : Bytes) : Int :=
     if neg then (if n > 9223372036854775808 then -9223372036854775808 else - (n : Int))
     else (if n > 9223372036854775807 then 9223372036854775807 else (n : Int))
 
-def starStar : Bytes := [42, 42]     -- "**"
+/-- "**": the value that makes `{name: **}` a match-all (`Gen.leafAllLiteral`, read from
+    checkMatchStyleAll on every run).  leaf.go spells the keyword at three more sites (the bind
+    excluded from placeholders, the bare `{**}` and the name it binds); Props/ConstFacts/C08
+    ties each of them to this one. -/
+def starStar : Bytes := Gen.leafAllLiteral
+
+/-- "capture": the name of a match-all's second parameter (`Gen.leafCaptureKeyword`) -/
+def captureKeyword : Bytes := Gen.leafCaptureKeyword
+
+attribute [simp] Gen.leafAllLiteral Gen.leafCaptureKeyword
 
 /-- `isMatchStyleStatic` -/
 def staticLit : Segment → Option Bytes
@@ -77,7 +87,7 @@ def allBind : Segment → Option (Bytes × Int)
       match ps with
       | q :: _ =>
         (match q.val with
-         | .lit v => if q.ident = B "capture" then some (p.ident, atoiGo v) else some (p.ident, 0)
+         | .lit v => if q.ident = captureKeyword then some (p.ident, atoiGo v) else some (p.ident, 0)
          | .re _ => some (p.ident, 0))
       | [] => some (p.ident, 0)
     else none
